@@ -80,6 +80,8 @@ class CallOps:
         return self.call_value(fn, args, kwargs, node)
 
     def call_value(self, fn, args, kwargs, node):
+        if fn.kind == 'global':
+            return self.call_global(fn.const, node, args, kwargs)
         if fn.kind != 'func':
             raise Unsupported('call of %s value' % fn.kind, node)
         ex = fn.extra
@@ -126,6 +128,21 @@ class CallOps:
             a, b = args
             c = mk_lt(a.term, b.term) if name == 'min' else mk_lt(b.term, a.term)
             return self.mk_int(mk_ite(c, a.term, b.term))
+        if name == 'map' and len(args) == 2:
+            # map(f, xs) as a value: same as [f(x) for x in xs]
+            st.env['__map_f'] = args[0]
+            st.env['__map_xs'] = args[1]
+            try:
+                comp = ast.parse('[__map_f(__map_x) for __map_x in __map_xs]', mode='eval').body
+                ast.fix_missing_locations(comp)
+                for n in ast.walk(comp):
+                    if not hasattr(n, 'lineno'):
+                        n.lineno = getattr(node, 'lineno', 0)
+                return self.ev(comp)
+            finally:
+                st.env.pop('__map_f', None)
+                st.env.pop('__map_xs', None)
+                st.env.pop('__map_x', None)
         if name == 'sorted':
             return self.builtin_sorted(args[0], kwargs, node)
         if name == 'all' or name == 'any':
@@ -338,7 +355,7 @@ class CallOps:
         if v.kind not in ('list', 'tuple'):
             raise Unsupported('sum of non-lists', node)
         for a in list(st.heap):
-            if heap_before.get(a) != st.heap[a]:
+            if heap_before.get(a, st.decls.base_heap.get(a)) != st.heap[a]:
                 st.heap[a] = st.decls.const('H_' + a, '(Array Int Val)')
                 st.bump(a)
         q = st.decls.const('qflat', 'Int')
@@ -439,6 +456,12 @@ class CallOps:
         if k == 'none':
             self.st.oblige(FALSE, 'AttributeError: None.%s()' % m, getattr(node, 'lineno', 0))
             raise PathInfeasible()
+        if k == 'file':
+            if m == 'read':
+                return self.mk_str(self.st.decls.const('filetext', 'String'))
+            if m == 'write':
+                return self.const(None)
+            raise Unsupported('file.%s' % m, node)
         if k == 'global':
             return self.call_global(base.const + '.' + m, node, args, kwargs)
         raise Unsupported('method %s on %s' % (m, k), node)
@@ -481,7 +504,12 @@ class CallOps:
         allargs = list(args)
         if fi.kind in ('method', 'classmethod'):
             allargs = [selfsv] + allargs
-        return self.inline_node(fi.node.args, fi.node.body, {}, fi, allargs, kwargs, node, ctx=fi)
+        try:
+            return self.inline_node(fi.node.args, fi.node.body, {}, fi, allargs, kwargs, node, ctx=fi)
+        except Unsupported as e:
+            if '[in ' not in str(e):
+                e.args = ('%s [in inlined %s, %s line %s]' % (e.args[0], fi.key, fi.path, getattr(e.node, 'lineno', '?')),)
+            raise
 
     def inline_node(self, argspec, body, closure, fi, args, kwargs, node, ctx):
         st = self.st
@@ -780,7 +808,7 @@ class CallOps:
         if m == 'get':
             key = args[0]
             default = args[1] if len(args) > 1 else self.const(None)
-            if d.is_const:
+            if d.is_const or d.owned:
                 items = d.extra['items']
                 res = self.box(default)
                 tys = set(default.ty or ANY)
@@ -795,6 +823,13 @@ class CallOps:
             vt = self.dict_val_ty(d)
             ty = frozenset(set(vt) | set(default.ty or ANY))
             return self.unbox(mk_ite(has, self.box(val), self.box(default)), ty, assume=False)
+        if d.owned and m in ('values', 'keys', 'items'):
+            items = d.extra['items']
+            if m == 'values':
+                return SV('list', elems=[v for _, v in items], owned=True, ty=parse_ty('list'))
+            if m == 'keys':
+                return SV('list', elems=[k for k, _ in items], owned=True, ty=parse_ty('list'))
+            return SV('list', elems=[SV('tuple', elems=[k, v], ty=parse_ty('tuple')) for k, v in items], owned=True, ty=parse_ty('list'))
         if m == 'values' or m == 'items' or m == 'keys':
             raise Unsupported('dict.%s' % m, node)
         raise Unsupported('dict.%s' % m, node)
